@@ -1,5 +1,6 @@
 //! C09 – rate and ETA estimator laws: correspondence with model/Estimator.v + EstimatorFloat.v (binary64 instances,
-//! powf supplied as data) + direct oracle on the implementation's outputs.
+//! powf supplied as data) + direct oracle on the implementation's outputs (classes, interpretations and
+//! candidate findings: docs/C09.md).
 //!
 //! Everything goes through the PUBLIC API under the mock clock: the bar is created after
 //! `set_clock_ns`, driven by set_position/inc/dec/update/tick/set_length/reset*/finish and
@@ -120,7 +121,9 @@ struct Obs {
 /// reached the estimator (position limiter + the "no advance" guard) and hence the two ages
 /// (now - prev_time, now - start_time) of every record / query.  A wrong shadow cannot hide a
 /// defect: a missing table entry makes the model produce -1.0 and the comparison fail.  The
-/// oracle uses it for two scope decisions only (documented at the use sites).
+/// oracle uses it for scope decisions only (documented at the use sites: instant of the last
+/// restart / reset, progress seen and since when, stale baseline, start of a stall window, and
+/// the cause `smoothed > double_smoothed` of a stall rise).
 #[derive(Clone, Debug)]
 struct Shadow {
     pos: u64,
